@@ -148,7 +148,7 @@ func rgb2hsv(red, green, blue fl) (h, s, c fl) {
 		hue = 60 * ((red-green)/delta + 4)
 	}
 	var saturation fl
-	if delta != 0 {
+	if cmax != 0 { // rgb() components may be negative : cmax may be 0 with delta != 0
 		saturation = delta / cmax
 	}
 	return hue, saturation, cmax
